@@ -24,6 +24,7 @@ EXPLANATION = (
     "sequences driving the pairing are order-tainted unless they pass sorted()/sort(); one next() on the cycle "
     "outside the search loop; generate_assignments keys blob and lookup by the same member id."
     ' Also: the partition snapshot covers every requested topic (R6, finding F42), the lists handed to the second generation come from the load alone, sorts have no key function.'
+    " No construct stores one mutable object under several keys of the assignment (dict.fromkeys with a mutable default); a topic enters the leader's partition snapshot only with its metadata error found to be 0."
 )
 SHARED = [('C05', ['R3'], "each member decodes from the leader's encoded assignment exactly what was encoded (blob encoder/decoder agree)"),
           ('C16', ['R1'], 'what a member decoded is what it consumes: one partition consumer for every (topic, partition) of its share')]
